@@ -59,7 +59,6 @@ class Lib(FsMixin):
         m['os'] = {'path': EnvModule('os.path')}
         m['os.path'] = {}
         m['tempfile'] = {}
-        m['threading'] = {}
         m['time'] = {'time': E('time.time', self.time_time), 'sleep': E('time.sleep', self.time_sleep)}
         m['warnings'] = {}
         m['itertools'] = {}
@@ -67,8 +66,12 @@ class Lib(FsMixin):
             return E('operator.' + nm, lambda it, a, k: it.compare(cmpname, a[0], a[1]))
         m['operator'] = {'eq': opf('eq', 'Eq'), 'ne': opf('ne', 'NotEq'), 'lt': opf('lt', 'Lt'),
                          'gt': opf('gt', 'Gt'), 'le': opf('le', 'LtE'), 'ge': opf('ge', 'GtE')}
-        m['math'] = {}
-        m['random'] = {}
+        m['math'] = {'log': E('math.log', self.math_log)}
+        m['random'] = {'random': E('random.random', self.random_random)}
+        m['threading'] = {'Thread': E('threading.Thread', self.thread_new),
+                          'get_ident': E('threading.get_ident', self.get_ident),
+                          'local': E('threading.local', lambda it, a, k: Obj('threadlocal', {}))}
+        self.env.obj_methods['Thread'] = {'start': self.thread_start}
         m['shutil'] = {'rmtree': E('shutil.rmtree', self.unsupported('shutil.rmtree'))}
         m['collections'] = {'OrderedDict': EnvClass('OrderedDict')}
         m['collections.abc'] = {n: EnvClass(n) for n in
@@ -279,6 +282,41 @@ class Lib(FsMixin):
 
     def time_sleep(self, it, a, k):
         it.st.effect('SLEEP', d=a[0])
+        return None
+
+    def math_log(self, it, a, k):
+        from .env import real_term
+        x = real_term(a[0])
+        self.env.use('math.log: a real function, negative on (0,1) (floats as reals)')
+        r = mlog(x)
+        it.st.assume(z3.Implies(z3.And(x > 0, x < 1), r < 0))
+        return SV('real', r)
+
+    def random_random(self, it, a, k):
+        r = it.st.fresh('random', z3.RealSort())
+        it.st.assume(z3.And(r >= 0, r < 1))
+        it.st.effect('RANDOM', r=r)
+        self.env.use('random.random(): any value in [0, 1)')
+        return SV('real', r)
+
+    def get_ident(self, it, a, k):
+        if 'tid' not in it.st.world:
+            it.st.world['tid'] = it.st.fresh('tid', z3.IntSort())
+        return SV('int', it.st.world['tid'])
+
+    def thread_new(self, it, a, k):
+        return Obj('Thread', {'target': k.get('target'), 'args': k.get('args', ()), 'kwargs': k.get('kwargs', {}),
+                              'daemon': False})
+
+    def thread_start(self, it, o, a, k):
+        # one admissible schedule: the new thread runs to completion at start()
+        self.env.use('threading.Thread.start(): the target runs with the given args/kwargs (here: immediately)')
+        it.st.effect('THREAD_START', thread=o)
+        args = o.fields['args']
+        from .engine import StarPack, SeqV
+        al = [StarPack(args)] if isinstance(args, SeqV) else list(args)
+        it.call(o.fields['target'], al, dict(o.fields['kwargs']))
+        it.st.effect('THREAD_END', thread=o)
         return None
 
     def ft_partial(self, it, a, k):
